@@ -202,6 +202,8 @@ int64_t cmb_buffer_get(struct cmb_buffer *bp, uint64_t *amntp)
     const uint64_t init_claim = *amntp;
     uint64_t rem_claim = *amntp;
     *amntp = 0u;
+    /* Queueing again within this call keeps the place earned by waiting since now */
+    const double since = cmb_time();
     while (true) {
         cmb_assert_debug(bp->level <= bp->capacity);
         cmb_logger_info(stdout, "Gets %" PRIu64 " from %s, level %" PRIu64,
@@ -244,9 +246,9 @@ int64_t cmb_buffer_get(struct cmb_buffer *bp, uint64_t *amntp)
         cmb_logger_info(stdout, "Waiting for more, level now %" PRIu64,
                         bp->level);
         cmb_resourceguard_signal(&(bp->rear_guard));
-        const int64_t sig = cmb_resourceguard_wait(&(bp->front_guard),
-                                                   buffer_has_content,
-                                                   NULL);
+        const int64_t sig = cmb_resourceguard_wait_since(&(bp->front_guard),
+                                                         buffer_has_content,
+                                                         NULL, since);
         if (sig == CMB_PROCESS_SUCCESS) {
             cmb_logger_info(stdout,"Returned successfully from wait");
         }
@@ -286,6 +288,8 @@ int64_t cmb_buffer_put(struct cmb_buffer *bp, uint64_t *amntp)
     cmb_assert_release(rbp->cookie == CMI_INITIALIZED);
     const uint64_t init_claim = *amntp;
     uint64_t rem_claim = *amntp;
+    /* Queueing again within this call keeps the place earned by waiting since now */
+    const double since = cmb_time();
     while (true) {
         cmb_assert_debug(bp->level <= bp->capacity);
         cmb_logger_info(stdout, "Puts %" PRIu64 " into %s, level %" PRIu64,
@@ -326,9 +330,9 @@ int64_t cmb_buffer_put(struct cmb_buffer *bp, uint64_t *amntp)
         cmb_assert_debug(rem_claim > 0u);
         cmb_logger_info(stdout, "Waiting for space, level %" PRIu64, bp->level);
         cmb_resourceguard_signal(&(bp->front_guard));
-        const int64_t sig = cmb_resourceguard_wait(&(bp->rear_guard),
-                                                   buffer_has_space,
-                                                   NULL);
+        const int64_t sig = cmb_resourceguard_wait_since(&(bp->rear_guard),
+                                                         buffer_has_space,
+                                                         NULL, since);
         if (sig == CMB_PROCESS_SUCCESS) {
             cmb_logger_info(stdout,"Returned successfully from wait");
         }
